@@ -163,9 +163,12 @@ def run_unit(unit, keep=False, rlimit=None, repo=REPO, extra_verus_args="", rend
             spans = d.get("spans", [])
             fn = None; label = None; text = None
             sp_out = []
+            # the span Verus marks "failed this ..." names the clause; a span that merely says where control was ("at the
+            # end of the function body", "at this exit") covers many lines and must not lend a label found inside it
+            spans = sorted(spans, key=lambda s_: 0 if "failed" in (s_.get("label") or "") else 1)
             for s in spans:
                 f_, l_ = locate(s["file_name"], s["line_start"])
-                if l_ is None:
+                if l_ is None and ("failed" in (s.get("label") or "") or not s.get("label")):
                     for ln_ in range(s["line_start"], s.get("line_end", s["line_start"]) + 1):
                         l2 = table.get(s["file_name"], {}).get("labels", {}).get(str(ln_))
                         if l2:
